@@ -355,12 +355,12 @@ def fro_check(rec, name, case, key, R, scale2, p, what):
     return False
 
 
-def orth_check(rec, opname, case, Qq, p, which='Q', rows=False):
+def orth_check(rec, opname, case, Qq, p, which='Q', rows=False, cell=None):
     """columns (or rows) of Qq orthonormal within 2^(10-p) Frobenius"""
     G_ = L.mul(Qq, L.H(Qq)) if rows else L.mul(L.H(Qq), Qq)
     E = L.sub(G_, L.eye(len(G_)))
     return fro_check(rec, '||%s^H %s - I||_F %s' % (which, which, opname.split('/')[0]), case,
-                     'C31/%s/orthonormality-%s' % (opname.split('/')[0], which), E, Fraction(1), p,
+                     'C31/%s/orthonormality-%s%s' % (opname.split('/')[0], which, '/' + cell if cell else ''), E, Fraction(1), p,
                      '%s: %s is not orthonormal within 2^(10-p)' % (opname, which))
 
 
@@ -418,41 +418,35 @@ def pair_residuals(rec, opname, case, Aq, evals, vecs, p, left=False):
 # checks
 # ---------------------------------------------------------------------------------------
 
-def charpoly(A):
-    """coefficients c[0..n] (c[n] = 1) of det(xI - A), Faddeev-LeVerrier, exact"""
-    n = len(A)
-    c = [Fraction(0)] * n + [Fraction(1)]
-    M = L.zeros(n)
-    for k in range(1, n + 1):
-        M = L.add(L.mul(A, M), L.smul(c[n - k + 1], L.eye(n)))
-        AM = L.mul(A, M)
-        tr = sum((AM[i][i] for i in range(n)), Fraction(0))
-        c[n - k] = -tr / k
-    return c
-
-
-def has_multiple_eigenvalue(A):
-    """exact: gcd(charpoly, charpoly') is not constant"""
-    def trim(q):
-        while q and not q[-1]:
-            q.pop()
-        return q
-    a = trim(list(charpoly(A)))
-    b = trim([k * a[k] for k in range(1, len(a))])
-    while b:
-        # a mod b
-        a = list(a)
-        while len(a) >= len(b):
-            f = a[-1] / b[-1]
-            sh = len(a) - len(b)
-            for i, v in enumerate(b):
-                a[sh + i] = a[sh + i] - f * v
-            a.pop()
-            trim(a)
-            if not a:
-                break
-        a, b = b, trim(a)
-    return len(a) > 1
+def stagnation_state(exc):
+    """Runtime observation at the moment hessenberg_qr gave up: look into its frame (A, n0, n1, norm) and decide whether
+    some subdiagonal entry of the active block is already at rounding-noise level -- |a_{k+1,k}| <= 8*eps*s with
+    s = |a_kk| + |a_{k+1,k+1}| (or the matrix norm), i.e. it would have been deflated by the usual LAPACK-style test and
+    only the much tighter threshold eps/(100 n) keeps the iteration going -- or whether the iteration really did not
+    converge.  Returns 'stagnation-at-noise-level', 'not-converged' or 'unknown'."""
+    tb = exc.__traceback__
+    fr = None
+    while tb is not None:
+        if tb.tb_frame.f_code.co_name == 'hessenberg_qr':
+            fr = tb.tb_frame
+        tb = tb.tb_next
+    if fr is None:
+        return 'unknown'
+    try:
+        loc = fr.f_locals
+        A, n0, n1, norm, ctx = loc['A'], loc['n0'], loc['n1'], loc['norm'], loc['ctx']
+        eps8 = L.pow2(4 - ctx.prec)                     # 8 * eps, eps = 2^(1-prec)
+        nq = abs(L.re(L.from_mp(norm)))
+        for k in range(n0, n1 - 1):
+            sub = L.abs_bounds(L.from_mp(A[k + 1, k]))[1]
+            s_ = L.abs_bounds(L.from_mp(A[k, k]))[1] + L.abs_bounds(L.from_mp(A[k + 1, k + 1]))[1]
+            if s_ < eps8 * nq:
+                s_ = nq
+            if sub <= eps8 * s_:
+                return 'stagnation-at-noise-level'
+        return 'not-converged'
+    except Exception:
+        return 'unknown'
 
 
 def run_guarded(rec, opname, case, f):
@@ -463,12 +457,8 @@ def run_guarded(rec, opname, case, f):
         key = 'C31/%s/raised-%s' % (opname.split('/')[0], ename)
         if 'converge' in str(e):
             key = 'C31/%s/no-convergence' % opname.split('/')[0]
-            try:
-                Aq = deser(case['A'])
-                if len(Aq) == len(Aq[0]):
-                    key += '/multiple-eigenvalue' if has_multiple_eigenvalue(Aq) else '/simple-spectrum'
-            except Exception:
-                pass
+            if 'qr:' in str(e):
+                key += '/' + stagnation_state(e)
         rec.violation(key, '%s raised %s inside the envelope' % (opname, ename), case, '%s: %s' % (ename, e), 'a decomposition')
         return None, e
 
@@ -658,9 +648,11 @@ def check_svd(mp, rec, r, op, kind, p, Aq):
     if L.shape(Uq) != su or L.shape(Vq) != sv:
         rec.violation('C31/svd/shape', 'U / V have the wrong shape', case, [L.shape(Uq), L.shape(Vq)], [su, sv])
         return
-    if not orth_check(rec, 'svd', case, Uq, p, 'U'):
+    rk = L.rank(Aq)
+    cell = ('full-rank' if rk == k else 'rank-deficient') + ('/wide' if m < n else ('/tall' if m > n else '/square'))
+    if not orth_check(rec, 'svd', case, Uq, p, 'U', cell=cell):
         return
-    if not orth_check(rec, 'svd', case, Vq, p, 'V', rows=True):
+    if not orth_check(rec, 'svd', case, Vq, p, 'V', rows=True, cell=cell):
         return
     if full:
         Sm = [[Sq[i] if i == j else Fraction(0) for j in range(n)] for i in range(m)]
@@ -682,8 +674,8 @@ def check_eig_sort(mp, rec, r, op, kind, p, Aq):
             return
         E0 = [L.from_mp(e) for e in E]
         EL0, ER0 = L.from_mpmatrix(EL), L.from_mpmatrix(ER)
-        before = sorted(((E0[i].re, E0[i].im) if isinstance(E0[i], L.GQ) else (E0[i], Fraction(0)), key_of([EL0[i]]), key_of([L.column(ER0, i)]))
-                        for i in range(n))
+        before = [((E0[i].re, E0[i].im) if isinstance(E0[i], L.GQ) else (E0[i], Fraction(0)), key_of([EL0[i]]), key_of([L.column(ER0, i)]))
+                  for i in range(n)]
         form = r.choice(['E', 'E,EL,ER', 'E,ER', 'E,EL'])
         args = {'E': (list(E),), 'E,EL,ER': (list(E), EL.copy(), ER.copy()), 'E,ER': (list(E), False, ER.copy()),
                 'E,EL': (list(E), EL.copy(), False)}[form]
